@@ -7,7 +7,7 @@ CONFIGS = [('p-entailment', '')]
 WEAKLY = False
 WANT = 'strong'
 RULE = ('random/shaped strongly consistent bases (vf/gen.py: random, penguin chains, independent layers, D4 shape; Top/Bottom, duplicates, facts, unfalsifiable conditionals) x 10 queries (random, base-derived, hostile, atoms outside the signature), built via parser text or programmatic API; judged by the tolerance-partition definition on enumerated worlds. Non-trivial = A&B and A&!B both satisfiable; distinct by hash(base, query, configuration).')
-ASSUMPTIONS = ['worlds are enumerated: bases of <= 6 atoms (incl. query atoms outside the signature), <= 8 conditionals, formula depth <= 3', 'reference semantics vf/refmodel.py is the definition quoted in the property (self-tested on textbook instances at start-up)']
+ASSUMPTIONS = ['worlds are enumerated: bases of <= 6 atoms (incl. query atoms outside the signature) and <= 8 conditionals, plus a ~5% share of "wide" bases with 7-8 atoms, 9-13 conditionals or 5-7 layers; formula depth <= 3 (deep equivalent wrappers to depth 9)', 'reference semantics vf/refmodel.py is the definition quoted in the property (self-tested on textbook instances at start-up)']
 TRUSTED = []
 FLOOR = {'quick': 300, 'thorough': 3000}
 BUDGET = {'quick': 80, 'thorough': 900}
